@@ -26,6 +26,19 @@ CHECKS = {
    text="Every byte offset of every conversation of a DATA/BDAT corpus is used as the point where the client's stream ends, with three terminal errors and two segmentations; executions run in testing/synctest bubbles so delivery goroutines are observed to completion. Oracle: EOF iff the whole message arrived.",
    note="corpus of conversations is hand-written (listed in checks/corpus.go); backend returns the reader's error",
    tech="exhaustive fault-point (connection cut) enumeration on the real code"),
+
+ "C03": dict(engine="S/bfs", cat="model_checking", ref="DESIGN.md §4 C03",
+   text="Explicit-state breadth-first search over command histories to a fixpoint: ~50 abstract commands, every transition replays the shortest history on a fresh real server in lock-step (synctest bubble, real TLS handshake for STARTTLS) plus one command and is compared with the reference protocol model (replies, callbacks with arguments, backend-side envelope at Data time, NewSession's view of greeting name and TLS state). States are deduplicated by (private-state dump of the real Conn, model state).",
+   note="reference model ref/protocol.go; capped counters in the state key (recipients at 3; bytesReceived ignored without a limit); stateless recording backend",
+   tech="explicit-state BFS where each transition calls the real handler, step-by-step conformance with a reference model"),
+ "C04": dict(engine="S/bfs + X", cat="model_checking", ref="DESIGN.md §4 C04",
+   text="Every BFS transition (as C03) is judged for reply count/order/format by a strict RFC 5321/2034 parser and then re-sent as raw octets fully pipelined, one octet per segment and 2-split around the last command: the output must be octet-identical to the lock-step conversation. Negative final replies must carry that very message's own error.",
+   note="TLS-upgraded histories are judged lock-step only; schedule part (slow delivery of an aborted transaction vs next transaction) is explored by the schedule explorer",
+   tech="explicit-state BFS + exhaustive re-segmentation of every explored history (differential)"),
+ "C08": dict(engine="S/cut", cat="fault_enumeration", ref="DESIGN.md §4 C08",
+   text="Every byte offset of a corpus of conversations as disconnect point x 3 terminal errors x 2 segmentations, and every server-initiated close reason x connection state x every suffix of a pool of buffered follow-up commands x 3 segmentations; all in synctest bubbles so that a goroutine that never finishes is reported by the runtime. Oracle on the backend trace: exactly one Logout per session, nothing begins after it, no session after the end.",
+   note="goroutine *start* order is left to the Go scheduler (late start observed deterministically in practice); STARTTLS sessions judged in C10",
+   tech="exhaustive fault-point enumeration (disconnect at every offset, every close reason x buffered suffix) on the real code"),
 }
 NOT_YET = "check not built yet (work in progress, see DESIGN.md §4)"
 
@@ -37,7 +50,7 @@ m = {
            "baseline_off_cmd": "cd /repo && GOFLAGS=-mod=mod GOPROXY=off GOSUMDB=off GOTOOLCHAIN=local go test -vet=off -count=1 -json ./...",
            "source_commits": ["de8bd85"], "add_only": True},
  "engines": [
-   {"name": "S", "path": "/verif/h/server.go", "serves_properties": ["C01","C02","C05","C06","C07"], "kind_free_text": "sequential exhaustive driver: real connection handler over a scripted in-memory net.Conn inside a testing/synctest bubble (exact quiescence and leak detection)"},
+   {"name": "S", "path": "/verif/h/server.go", "serves_properties": ["C01","C02","C03","C04","C05","C06","C07","C08"], "kind_free_text": "sequential exhaustive driver: real connection handler over a scripted in-memory net.Conn inside a testing/synctest bubble (exact quiescence and leak detection)"},
  ],
  "checks": [], "not_applicable": [],
  "notes": "All checks are built and run with go1.26.8 (GOTOOLCHAIN=local) because testing/synctest provides the exact 'all goroutines blocked' signal the explorers need. ./check <ID> <tier> rebuilds from /repo's working tree with -tags verif.",
